@@ -142,6 +142,108 @@ func checkC03(e *Engine, r *Report) {
 				"scenario "+sc.name+": "+e.pathString(p), true)
 		}
 	}
+	// ---- rule 1d: the capacities the ranking compares are the pool's allocatable capacities minus the request ----
+	if getScore := r.Anchor(pkgTA, "supply.GetScore"); getScore != nil {
+		fIsoSet := e.Field(pkgTA, "supply", "isolated")
+		for _, t := range []struct {
+			field string
+			base  func(v ssa.Value) bool
+			what  string
+		}{
+			{"shared", func(v ssa.Value) bool {
+				c, ok := v.(*ssa.Call)
+				return ok && e.IsCallTo(c, fset(allocShared)) && paramIndex(callArgs(c)[0]) == 0
+			}, "AllocatableSharedCPU() of the scored pool"},
+			{"reserved", func(v ssa.Value) bool {
+				c, ok := v.(*ssa.Call)
+				return ok && e.IsCallTo(c, fset(allocRes)) && paramIndex(callArgs(c)[0]) == 0
+			}, "AllocatableReservedCPU() of the scored pool"},
+			{"isolated", func(v ssa.Value) bool {
+				c, ok := v.(*ssa.Call)
+				if !ok || callObj(c.Common()) == nil || callObj(c.Common()).Name() != "Size" {
+					return false
+				}
+				f, b := loadedField(callArgs(c)[0])
+				return f == fIsoSet && paramIndex(b) == 0
+			}, "the size of the scored pool's isolated set"},
+		} {
+			f := e.Field(pkgTA, "score", t.field)
+			if f == nil {
+				r.Undecided("R9:score-capacity-source#"+t.field, "R2 eligibility table", "score."+t.field+" exists", "-", nil, "field not found")
+				continue
+			}
+			// every store: its value is base - amounts, or (the field's current value) - amounts
+			var baseStores []ssa.Instruction
+			okAll, why := true, ""
+			n := 0
+			AllInstrs(getScore, func(in ssa.Instruction) {
+				st, ok := in.(*ssa.Store)
+				if !ok || fieldOfAddr(st.Addr) != f {
+					return
+				}
+				n++
+				// the minuend chain, through locals and merges: every leaf is the base or the field's current value
+				hasBase, bad := false, ""
+				seen := map[ssa.Value]bool{}
+				var walk func(v ssa.Value, d int)
+				walk = func(v ssa.Value, d int) {
+					if seen[v] || d > 30 {
+						return
+					}
+					seen[v] = true
+					switch x := v.(type) {
+					case *ssa.BinOp:
+						if x.Op == token.SUB {
+							walk(x.X, d+1)
+							return
+						}
+					case *ssa.Phi:
+						for _, ed := range x.Edges {
+							walk(ed, d+1)
+						}
+						return
+					case *ssa.UnOp:
+						if al, ok := x.X.(*ssa.Alloc); ok && x.Op == token.MUL {
+							for _, s2 := range reachingStores(al, x) {
+								walk(s2.Val, d+1)
+							}
+							return
+						}
+					}
+					switch {
+					case t.base(v):
+						hasBase = true
+					case isFieldLoad(v, f): // accumulates on the stored value
+					default:
+						bad = v.String()
+					}
+				}
+				walk(st.Val, 0)
+				if bad != "" {
+					okAll, why = false, "stored from "+bad+" at "+e.InstrPos(in)
+				} else if hasBase {
+					baseStores = append(baseStores, in)
+				}
+			})
+			if n == 0 || len(baseStores) == 0 {
+				okAll, why = false, "no store of "+t.what
+			}
+			if okAll && t.field != "isolated" {
+				// … and the base store is on every path (isolated capacity matters only for isolation-preferring requests)
+				if p := FindPath(PathQuery{Fn: getScore, Target: isRet, Block: func(in ssa.Instruction) bool {
+					for _, b := range baseStores {
+						if b == in {
+							return true
+						}
+					}
+					return false
+				}}); p != nil {
+					okAll, why = false, "a score is returned without it: "+e.pathString(p)
+				}
+			}
+			r.Check("R9:score-capacity-source#"+t.field, "R2 eligibility table", "the "+t.field+" capacity a pool is ranked by is "+t.what+" less what the request asks for", e.Pos(getScore.Pos()), getScore, okAll, why, true)
+		}
+	}
 	// ---- rule 1b: an admitted fraction is entered in the ledger ------------------------------------------
 	for _, t := range []struct {
 		f        *types.Var
@@ -259,6 +361,57 @@ func checkC03(e *Engine, r *Report) {
 			r.Check("R2:admission-guard@"+t.fn.Name()+"#"+t.name, "R2 admission guards", what, e.InstrPos(in), t.fn, p == nil && hasTest, w, true)
 		})
 		r.MinInstances("increments of "+t.f.Name()+" in "+t.fn.Name(), n, 1)
+	}
+	// a reserved-class request never gets exclusive CPUs: its whole-CPU part is served as a fraction of the reserved pool.
+	// Decided by path search under "the request's class is cpuReserved", for a positive and for a zero whole-CPU part,
+	// with the sign abstraction following the `full` local through its re-assignment.
+	{
+		fFull := e.Field(pkgTA, "request", "full")
+		fCls := e.Field(pkgTA, "request", "cpuType")
+		reservedK, _ := e.TypesPkg(pkgTA).Scope().Lookup("cpuReserved").(*types.Const)
+		if fFull == nil || fCls == nil || reservedK == nil {
+			r.Undecided("R2:eligibility#reserved-class-no-exclusive", "R2 admission guards", "request.full, request.cpuType and cpuReserved resolve", e.Pos(allocCPU.Pos()), allocCPU, "not found")
+		} else {
+			for _, sc := range []struct {
+				name string
+				full signSet
+			}{{"whole-cpus-requested", sgPos}, {"no-whole-cpus", sgZero}} {
+				sc := sc
+				base := func(v ssa.Value) (signSet, bool) {
+					if f, _ := loadedField(v); f == fFull {
+						return sc.full, true
+					}
+					return 0, false
+				}
+				var asm Assumption
+				nest := 0
+				asm = func(cond ssa.Value) (bool, bool) {
+					b, ok := cond.(*ssa.BinOp)
+					if !ok {
+						return false, false
+					}
+					if nest > 3 { // evaluating a phi's feasibility asks about earlier branches, which may ask again
+						return false, false
+					}
+					nest++
+					defer func() { nest-- }()
+					// the request's class (read from the request, not the local that a fallback may rewrite)
+					if (b.Op == token.EQL || b.Op == token.NEQ) && isFieldLoad(b.X, fCls) {
+						if k, isK := b.Y.(*ssa.Const); isK && k.Value != nil && types.Identical(k.Type(), reservedK.Type()) {
+							return true, isConstEq(b.Y, reservedK) == (b.Op == token.EQL)
+						}
+					}
+					if isConstInt(b.Y, 0) {
+						if bt, ok := b.X.Type().Underlying().(*types.Basic); ok && bt.Info()&types.IsInteger != 0 {
+							return cmpZero(signOf(allocCPU, b.X, base, asm, 0), b.Op)
+						}
+					}
+					return false, false
+				}
+				p := FindPath(PathQuery{Fn: allocCPU, Assume: asm, Target: func(x ssa.Instruction) bool { return e.IsCallTo(x, fset(take)) }})
+				r.Check("R2:eligibility#reserved-class-no-exclusive#"+sc.name, "R2 admission guards", "a reserved-class request is never given exclusive CPUs (its whole-CPU part is granted as a portion of the reserved CPUs)", e.Pos(allocCPU.Pos()), allocCPU, p == nil, e.pathString(p), true)
+			}
+		}
 	}
 	// slicing exclusive CPUs from the sharable set needs Allocatable > 1000*full; from the isolated set needs Size >= full && isolate
 	nt := 0
